@@ -267,4 +267,178 @@ theorem canon_rc {s : List Char} (hs : Canon s) : Canon (GCSpec.rc s) := by
   have : ∀ y ∈ GCSpec.bases, GCSpec.wc y ∈ GCSpec.bases := by decide
   exact this x (hs x hx)
 
+
+/-! ## stop handling of `get_translation` (canonical gap-free sequences) -/
+
+def outcomeToExcept : GCSpec.Outcome → Except Err (List Char)
+  | .pep p => .ok p
+  | .rejected => .error .alphabetError
+
+theorem monoIdx_degen_canon : ∀ c ∈ GCSpec.bases,
+    monoIdx (newDegenGapped newDna) c = monoIdx (mkNewGC newDna []).alpha c := by decide +kernel
+
+set_option maxRecDepth 100000 in
+theorem aa_not_gap_x : ∀ code ∈ newCodes ++ oldCodes, ∀ a ∈ GCSpec.bases, ∀ b ∈ GCSpec.bases, ∀ c ∈ GCSpec.bases,
+    GCSpec.aa code.2.1 [a, b, c] ≠ '-' ∧ GCSpec.aa code.2.1 [a, b, c] ≠ 'X' := by decide +kernel
+
+theorem translate_no_gap_x (seq : List Char)
+    (h : ∀ a ∈ GCSpec.bases, ∀ b ∈ GCSpec.bases, ∀ c ∈ GCSpec.bases,
+      GCSpec.aa seq [a, b, c] ≠ '-' ∧ GCSpec.aa seq [a, b, c] ≠ 'X') :
+    ∀ d : List Char, Canon d → (GCSpec.translate seq d).contains '-' = false ∧ (GCSpec.translate seq d).contains 'X' = false
+  | [], _ => by simp [GCSpec.translate]
+  | [_], _ => by simp [GCSpec.translate]
+  | [_, _], _ => by simp [GCSpec.translate]
+  | a :: b :: c :: r, hd => by
+    obtain ⟨ha, hb, hc, hr⟩ := canon_cons3 hd
+    have ih := translate_no_gap_x seq h r hr
+    have h1 := h a ha b hb c hc
+    simp only [GCSpec.translate, List.contains_cons, Bool.or_eq_false_iff, ih, and_true]
+    exact ⟨beq_false_of_ne (Ne.symm h1.1), beq_false_of_ne (Ne.symm h1.2)⟩
+
+/-- the new `translate` called with the sequence's own (most degenerate) alphabet -/
+theorem translateWith_degen (seq : List Char)
+    (h : ∀ a ∈ GCSpec.bases, ∀ b ∈ GCSpec.bases, ∀ c ∈ GCSpec.bases, plusOf seq a b c = GCSpec.aa seq [a, b, c])
+    (s : List Char) (hs : Canon s) (hsmall : s.length / 3 < 256) :
+    (mkNewGC newDna seq).translateWith (newDegenGapped newDna) s 0 false = GCSpec.translate seq s := by
+  have hm : ∀ d : List Char, Canon d →
+      d.map (monoIdx (newDegenGapped newDna)) = d.map (monoIdx (mkNewGC newDna seq).alpha) :=
+    fun d hd => List.map_congr_left fun c hc => monoIdx_degen_canon c (hd c hc)
+  have := new_translate_plus seq h s 0 hs (by simpa using hsmall)
+  simp only [List.drop_zero] at this
+  rw [← this]
+  unfold newTranslate NewGC.translateWith
+  simp only [ne_eq, not_true_eq_false, if_false]
+  rw [hm _ (canon_trunc3 hs)]
+
+/-- last codon / all but the last codon -/
+theorem translate_split_last (seq : List Char) (s : List Char) (h3 : s.length % 3 = 0) (hne : s ≠ []) :
+    (lastN 3 s).length = 3 ∧
+    GCSpec.translate seq s = GCSpec.translate seq (s.take (s.length - 3)) ++ GCSpec.translate seq (lastN 3 s) := by
+  have hl : 3 ≤ s.length := by
+    cases s with
+    | nil => exact absurd rfl hne
+    | cons a r => simp at h3 ⊢; omega
+  have hsplit : s = s.take (s.length - 3) ++ lastN 3 s := (List.take_append_drop _ _).symm
+  refine ⟨by simp [lastN, List.length_drop]; omega, ?_⟩
+  conv => lhs; rw [hsplit]
+  exact spec_translate_append seq _ _ (by rw [List.length_take]; omega)
+
+theorem lastN3_canon {s : List Char} (hs : Canon s) (h : (lastN 3 s).length = 3) :
+    ∃ a b c, lastN 3 s = [a, b, c] ∧ a ∈ GCSpec.bases ∧ b ∈ GCSpec.bases ∧ c ∈ GCSpec.bases := by
+  have hc : Canon (lastN 3 s) := canon_drop hs _
+  match hl : lastN 3 s, h, hc with
+  | [a, b, c], _, hc => exact ⟨a, b, c, rfl, hc a (by simp), hc b (by simp), hc c (by simp)⟩
+
+/-- `trim_stop_codon` on a canonical gap-free non-empty sequence -/
+theorem trim_stop_spec (seq : List Char) (getItem : List Char → Char)
+    (hget : ∀ a ∈ GCSpec.bases, ∀ b ∈ GCSpec.bases, ∀ c ∈ GCSpec.bases, getItem [a, b, c] = GCSpec.aa seq [a, b, c])
+    (s : List Char) (hs : Canon s) (hne : s ≠ []) (strict : Bool) :
+    trimStopCodon getItem s strict =
+      if s.length % 3 = 0 then
+        .ok (if (GCSpec.translate seq s).getLast? = some '*' then s.take (s.length - 3) else s)
+      else if strict then .error .alphabetError else .ok s := by
+  unfold trimStopCodon hasTerminalStop
+  by_cases h3 : s.length % 3 = 0
+  · obtain ⟨hl, hsplit⟩ := translate_split_last seq s h3 hne
+    obtain ⟨a, b, c, habc, ha, hb, hc⟩ := lastN3_canon hs hl
+    have hlast : (GCSpec.translate seq s).getLast? = some (GCSpec.aa seq [a, b, c]) := by
+      rw [hsplit, habc]; simp [GCSpec.translate]
+    simp only [h3, if_true, isStopEnd, habc, List.length_cons, List.length_nil, hget a ha b hb c hc, hlast]
+    by_cases hstop : GCSpec.aa seq [a, b, c] = '*'
+    · simp [hstop, bind, Except.bind, pure, Except.pure]
+    · simp [hstop, bind, Except.bind, pure, Except.pure]
+  · cases strict <;> simp [h3, bind, Except.bind, pure, Except.pure]
+
+theorem new_stop_rules (seq : List Char)
+    (hplus : ∀ a ∈ GCSpec.bases, ∀ b ∈ GCSpec.bases, ∀ c ∈ GCSpec.bases, plusOf seq a b c = GCSpec.aa seq [a, b, c])
+    (hget : ∀ a ∈ GCSpec.bases, ∀ b ∈ GCSpec.bases, ∀ c ∈ GCSpec.bases,
+      newGetItem newDna seq [a, b, c] = GCSpec.aa seq [a, b, c])
+    (hng : ∀ a ∈ GCSpec.bases, ∀ b ∈ GCSpec.bases, ∀ c ∈ GCSpec.bases,
+      GCSpec.aa seq [a, b, c] ≠ '-' ∧ GCSpec.aa seq [a, b, c] ≠ 'X')
+    (s : List Char) (hs : Canon s) (hne : s ≠ []) (hsmall : s.length / 3 < 256) (io is_ ts : Bool) :
+    newSeqGetTranslation newDna seq s io is_ ts = outcomeToExcept (GCSpec.getTranslation seq s io is_ ts) := by
+  have htr := fun (d : List Char) (hd : Canon d) (hsm : d.length / 3 < 256) => translateWith_degen seq hplus d hd hsm
+  have hnox := translate_no_gap_x seq hng
+  have hnom : ∀ d : List Char, Canon d → '-' ∉ GCSpec.translate seq d ∧ 'X' ∉ GCSpec.translate seq d := by
+    intro d hd
+    have := hnox d hd
+    simpa using this
+  unfold newSeqGetTranslation GCSpec.getTranslation
+  cases ts
+  · -- no trimming
+    simp only [Bool.false_eq_true, if_false, Bool.false_and, pure, Except.pure, bind, Except.bind,
+      htr s hs hsmall, (hnox s hs).1, (hnox s hs).2, Bool.or_false, Bool.and_false]
+    cases is_ <;> by_cases h : '*' ∈ GCSpec.translate seq s <;>
+      simp [h, outcomeToExcept, throw, throwThe, MonadExceptOf.throw]
+  · rw [trim_stop_spec seq _ hget s hs hne]
+    by_cases h3 : s.length % 3 = 0
+    · obtain ⟨hl, hsplit⟩ := translate_split_last seq s h3 hne
+      have htake : Canon (s.take (s.length - 3)) := canon_take hs _
+      have hsm2 : (s.take (s.length - 3)).length / 3 < 256 := by rw [List.length_take]; omega
+      have hdl : GCSpec.translate seq (s.take (s.length - 3)) = (GCSpec.translate seq s).dropLast := by
+        obtain ⟨a, b, c, habc, _, _, _⟩ := lastN3_canon hs hl
+        rw [hsplit, habc]; simp [GCSpec.translate]
+      by_cases hstop : (GCSpec.translate seq s).getLast? = some '*'
+      · simp only [h3, hstop, if_true, bind, Except.bind, htr _ htake hsm2, hdl,
+          (hnox _ htake).1, (hnox _ htake).2, hdl ▸ (hnox _ htake).1, hdl ▸ (hnox _ htake).2]
+        cases io <;> cases is_ <;> by_cases h : '*' ∈ (GCSpec.translate seq s).dropLast <;>
+          simp [h, outcomeToExcept, throw, throwThe, MonadExceptOf.throw, pure, Except.pure,
+            hdl ▸ (hnom _ htake).1, hdl ▸ (hnom _ htake).2]
+      · simp only [h3, hstop, if_true, if_false, bind, Except.bind, htr s hs hsmall]
+        cases io <;> cases is_ <;> by_cases h : '*' ∈ GCSpec.translate seq s <;>
+          simp [h, outcomeToExcept, throw, throwThe, MonadExceptOf.throw, pure, Except.pure,
+            (hnom s hs).1, (hnom s hs).2]
+    · cases io
+      · simp [h3, outcomeToExcept, bind, Except.bind]
+      · simp only [h3, if_false, Bool.true_eq_false, bind, Except.bind, htr s hs hsmall]
+        cases is_ <;> by_cases h : '*' ∈ GCSpec.translate seq s <;>
+          simp [h, h3, outcomeToExcept, throw, throwThe, MonadExceptOf.throw, pure, Except.pure,
+            (hnom s hs).1, (hnom s hs).2, htr s hs hsmall]
+
+theorem old_seq_codons_spec (seq : List Char)
+    (h : ∀ a ∈ GCSpec.bases, ∀ b ∈ GCSpec.bases, ∀ c ∈ GCSpec.bases, oldGetItem seq [a, b, c] = GCSpec.aa seq [a, b, c])
+    (is_ : Bool) : ∀ d : List Char, Canon d →
+    oldSeqCodons seq is_ d =
+      if !is_ && decide ('*' ∈ GCSpec.translate seq d) then .error .alphabetError else .ok (GCSpec.translate seq d)
+  | [], _ => by simp [oldSeqCodons, GCSpec.translate, pure, Except.pure]
+  | [_], _ => by simp [oldSeqCodons, GCSpec.translate, pure, Except.pure]
+  | [_, _], _ => by simp [oldSeqCodons, GCSpec.translate, pure, Except.pure]
+  | a :: b :: c :: r, hd => by
+    obtain ⟨ha, hb, hc, hr⟩ := canon_cons3 hd
+    have ih := old_seq_codons_spec seq h is_ r hr
+    simp only [oldSeqCodons, GCSpec.translate, h a ha b hb c hc, ih, bind, Except.bind]
+    cases is_ <;> by_cases h1 : GCSpec.aa seq [a, b, c] = '*' <;> by_cases h2 : '*' ∈ GCSpec.translate seq r <;>
+      (simp [h1, h2, throw, throwThe, MonadExceptOf.throw, pure, Except.pure]) <;>
+      (try (intro hh; exact h1 hh.symm))
+
+theorem old_stop_rules (seq : List Char)
+    (hget : ∀ a ∈ GCSpec.bases, ∀ b ∈ GCSpec.bases, ∀ c ∈ GCSpec.bases, oldGetItem seq [a, b, c] = GCSpec.aa seq [a, b, c])
+    (s : List Char) (hs : Canon s) (hne : s ≠ []) (io is_ ts : Bool) (hopt : ¬ (is_ = true ∧ ts = true)) :
+    oldSeqGetTranslation seq s io is_ ts = outcomeToExcept (GCSpec.getTranslation seq s io is_ ts) := by
+  have hcod := old_seq_codons_spec seq hget is_
+  unfold oldSeqGetTranslation GCSpec.getTranslation
+  cases ts
+  · simp only [Bool.not_false, Bool.or_true, if_true, pure, Except.pure, bind, Except.bind, hcod s hs,
+      Bool.false_and, Bool.false_eq_true, if_false]
+    cases is_ <;> by_cases h : '*' ∈ GCSpec.translate seq s <;> simp [h, outcomeToExcept]
+  · have his : is_ = false := by cases is_ <;> simp_all
+    subst his
+    simp only [Bool.false_or, Bool.not_true, Bool.false_eq_true, if_false]
+    rw [trim_stop_spec seq _ hget s hs hne]
+    by_cases h3 : s.length % 3 = 0
+    · obtain ⟨hl, hsplit⟩ := translate_split_last seq s h3 hne
+      have htake : Canon (s.take (s.length - 3)) := canon_take hs _
+      have hdl : GCSpec.translate seq (s.take (s.length - 3)) = (GCSpec.translate seq s).dropLast := by
+        obtain ⟨a, b, c, habc, _, _, _⟩ := lastN3_canon hs hl
+        rw [hsplit, habc]; simp [GCSpec.translate]
+      by_cases hstop : (GCSpec.translate seq s).getLast? = some '*'
+      · simp only [h3, hstop, if_true, bind, Except.bind, hcod _ htake, hdl]
+        cases io <;> by_cases h : '*' ∈ (GCSpec.translate seq s).dropLast <;> simp [h, outcomeToExcept]
+      · simp only [h3, hstop, if_true, if_false, bind, Except.bind, hcod s hs]
+        cases io <;> by_cases h : '*' ∈ GCSpec.translate seq s <;> simp [h, outcomeToExcept]
+    · cases io
+      · simp [h3, outcomeToExcept, bind, Except.bind]
+      · simp only [h3, if_false, Bool.true_eq_false, bind, Except.bind, hcod s hs]
+        by_cases h : '*' ∈ GCSpec.translate seq s <;> simp [h, h3, outcomeToExcept, hcod s hs]
+
 end CogentModel.GC
